@@ -244,7 +244,7 @@ def rule_pairs(ctx, rep, langs=ALL_LANGS):
     rep.floor(R, total, 3000, 'pairs validated')
 
 
-def rule_ordinal_roundtrip(ctx, rep, langs=('en', 'fr', 'de', 'nl', 'it')):
+def rule_ordinal_roundtrip(ctx, rep, langs=ALL_LANGS):
     R = 'A0-ORDINALS'
     rep.rule(R, 'the validator path turns the standard spelling of the n-th ordinal into the digits of n, carries the language\'s ordinal marker '
                 'for that form and refuses any further word (frozen): every n below 1000 (10 000 thorough) plus samples, for en, fr, de, nl, it '
@@ -282,13 +282,13 @@ def rule_ordinal_roundtrip(ctx, rep, langs=('en', 'fr', 'de', 'nl', 'it')):
                 want_m = marks[max(cands, key=len)] if cands else None
             ok = r[0] == 'Ok' and r[1] == str(n) and r[2] is not None and (want_m is None or r[2] == want_m)
             if not ok:
-                bad.setdefault(' '.join(toks)[-8:], []).append((n, toks, r, want_m))
+                bad.setdefault('%dw|..%s' % (len(toks), ' '.join(toks)[-8:]), []).append((n, toks, r, want_m))
         if unk:
             rep.anchor(R, lang, 'cannot interpret "%s": %s' % (' '.join(unk[0]), unk[1]))
             continue
         for tail, items in sorted(bad.items()):
             n, toks, r, want_m = items[0]
-            rep.violation(R, '%s|..%s' % (lang, tail), 'the ordinal "%s" (rank %d) validates to %s, expected digits %d with the marker %s (%d spellings ending like this fail, e.g. %s)' % (
+            rep.violation(R, '%s|%s' % (lang, tail), 'the ordinal "%s" (rank %d) validates to %s, expected digits %d with the marker %s (%d spellings ending like this fail, e.g. %s)' % (
                 ' '.join(toks), n, r, n, want_m, len(items), [x[0] for x in items[:6]]))
         if not bad:
             rep.ok(R, lang, '%d ranks' % len(ns))
